@@ -214,6 +214,66 @@ def p1(h, st):
 
 
 # ---------------------------------------------------------------------------------------------------------------------
+# O5  penalty terms: the penalised Hamiltonian is H + sum mu (O - v)^2 in the solver's own encoding and ordering
+
+SAV = "tangelo/algorithms/variational/sa_vqe_solver.py"
+PEN_SETS = [{"N": [1.5, 2]}, {"Sz": [2.0, 0]}, {"S^2": [1.2, 0]}, {"N": [0.8, 2], "Sz": [1.1, 1], "S^2": [0.6, 2]}]
+
+
+@contract("C08", "O5.penalty_terms", level="B",
+          structures=lambda tier: [{"mol": m, "ansatz": a, "mapping": mp, "utd": u, "pen": k, "solver": sv}
+                                   for (m, a, mp, sv) in (("H2", "UCCSD", "jw", "vqe"), ("H2", "HEA", "bk", "vqe"), ("H4", "UCCSD", "jw", "vqe"), ("H2", "UCCSD", "jkmn", "vqe"), ("H2", "UCCSD", "jw", "sa"))
+                                   for u in (False, True) for k in range(len(PEN_SETS)) if tier != "quick" or (m == "H2" and (k in (1, 3) or (mp == "jw" and sv == "vqe")))],
+          native_samples=lambda st, rnd, tier: [{"seed": rnd.randint(0, 10 ** 6)}],
+          targets=[(VQ, "VQESolver.build"), (VQ, "VQESolver.energy_estimation"), (SAV, "SA_VQESolver.build")])
+def o5(h, st):
+    """bounded: a solver built with penalty_terms minimises H + sum_O mu_O (O - v_O)^2 for O in N, Sz, S^2: its qubit Hamiltonian equals the image - under the solver's own encoding
+    and spin-orbital ordering - of the molecular Hamiltonian plus the penalties written with the reference (alternating-order) operators, and energy_estimation(theta) is the
+    expectation value of exactly that operator on the ansatz state"""
+    import random
+    import numpy as np
+    from tangelo.algorithms.variational import VQESolver, SA_VQESolver, BuiltInAnsatze
+    from tangelo.toolboxes.ansatz_generator import fermionic_operators as fo
+    from tangelo.toolboxes.qubit_mappings.mapping_transform import fermion_to_qubit_mapping
+    from contracts.C07 import molecule
+    rnd = random.Random(int(h.integer("seed")))
+    mol = molecule(st["mol"])
+    pen = {k: list(v) for k, v in PEN_SETS[st["pen"]].items()}
+    opts = {"molecule": mol, "ansatz": getattr(BuiltInAnsatze, st["ansatz"]), "qubit_mapping": st["mapping"], "up_then_down": st["utd"], "penalty_terms": pen}
+    if st["solver"] == "sa":
+        from tangelo.linq import Circuit, Gate
+        opts["ref_states"] = [[1, 1, 0, 0], [1, 0, 0, 1]] if not st["utd"] else [[1, 0, 1, 0], [1, 0, 0, 1]]
+        s = h.call(SAV, "SA_VQESolver", opts)
+        h.call(SAV, "SA_VQESolver.build", s)
+    else:
+        s = h.call(VQ, "VQESolver", opts)
+        h.call(VQ, "VQESolver.build", s)
+    h.check("penalty dictionary of the caller unchanged", pen == {k: list(v) for k, v in PEN_SETS[st["pen"]].items()})
+    # reference: fermionic penalties in the alternating order (the operators of C12), everything mapped with the solver's options
+    n_mos = mol.n_active_mos
+    ref_f = mol.fermionic_hamiltonian
+    ops = {"N": fo.number_operator, "Sz": fo.spinz_operator, "S^2": fo.spin2_operator}
+    total = None
+    for name, (mu, v) in PEN_SETS[st["pen"]].items():
+        o = ops[name](n_mos, up_then_down=False)
+        term = (o - v) * (o - v) * mu
+        total = term if total is None else total + term
+    def to_q(fop):
+        return fermion_to_qubit_mapping(fop, st["mapping"], mol.n_active_sos, mol.n_active_electrons, st["utd"], mol.active_spin)
+    w = s.ansatz.circuit.width if st["solver"] != "sa" else s.ansatz.circuit.width
+    Mref = op_matrix(to_q(ref_f), w) + op_matrix(to_q(total), w)
+    M = op_matrix(s.qubit_hamiltonian, w)
+    h.check("qubit Hamiltonian == encoded (H + sum mu (O - v)^2)", float(np.max(np.abs(M - Mref))) < 1e-8, detail=f"max deviation {float(np.max(np.abs(M - Mref))):.3e}")
+    if st["solver"] != "sa":
+        th = np.array([rnd.uniform(-1.0, 1.0) for _ in range(s.ansatz.n_var_params)])
+        e = h.call(VQ, "VQESolver.energy_estimation", s, th)
+        psi = state_of(s.ansatz.circuit, w)
+        ref = float(np.real(psi.conj() @ Mref @ psi))
+        h.check("energy == <psi| H + penalties |psi>", abs(e - ref) < 1e-8, detail=f"{e} vs {ref}")
+    h.done()
+
+
+# ---------------------------------------------------------------------------------------------------------------------
 # O4  histories on ONE solver object
 
 @contract("C08", "O4.solver_histories", level="B", structures=lambda tier: [dict(c) for c in (CONFIGS[0], CONFIGS[2], CONFIGS[4], CONFIGS[6])[: 3 if tier == "quick" else 4]] + [dict(CONFIGS[0], defl=True), dict(CONFIGS[1], defl=True)],
